@@ -155,7 +155,7 @@ fn write_if_changed(path: &str, bytes: &[u8]) {
 }
 
 /// the main header of serialised package `bytes`, taken apart (index entries as written, store), and where it sits
-fn split_main_header(bytes: &[u8]) -> Option<(usize, usize, crate::pkggen::GHeader)> {
+pub fn split_main_header(bytes: &[u8]) -> Option<(usize, usize, crate::pkggen::GHeader)> {
     let p = rpm::Package::parse(&mut &bytes[..]).ok()?;
     let o = p.metadata.get_package_segment_offsets();
     let (a, b) = (o.header as usize, o.payload as usize);
@@ -180,7 +180,7 @@ fn split_main_header(bytes: &[u8]) -> Option<(usize, usize, crate::pkggen::GHead
 
 /// start packages whose main header is valid but not laid out the way the library itself would lay it out: derived from
 /// the built2 package by editing the serialised main header and recording the digest of the edited header
-fn variant_start(kind: &str) -> Option<Vec<u8>> {
+pub fn variant_start(kind: &str) -> Option<Vec<u8>> {
     let base = build_start("built2").ok()?;
     let mut bytes = Vec::new();
     base.write(&mut bytes).ok()?;
@@ -235,7 +235,7 @@ fn variant_start(kind: &str) -> Option<Vec<u8>> {
     Some(out)
 }
 
-const VARIANT_KINDS: [&str; 4] = ["latin1", "noncanon", "swapped", "extratag"];
+pub const VARIANT_KINDS: [&str; 4] = ["latin1", "noncanon", "swapped", "extratag"];
 
 fn start_package(kind: &str, blob: &str) -> Option<rpm::Package> {
     let path = blob.strip_prefix('@')?;
